@@ -40,6 +40,9 @@ def confirm(src, bid):
 def run(ids):
     man = json.load(open(os.path.join(V, "MANIFEST.json")))
     pids = [c["property_id"] for c in man["checks"]]
+    only = [x for x in os.environ.get("ONLY_CHECKS", "").split(",") if x]
+    if only:
+        pids = [p for p in pids if p in only]  # a focused re-run after a rule change; its result is printed, last_run.json is left alone
     res = {}
     lr = os.path.join(B, "last_run.json")
     if os.path.exists(lr):
@@ -71,7 +74,8 @@ def run(ids):
             print(bid, hits if hits else "silent")
         finally:
             sh(f"git -C {WT} checkout -- .")
-    json.dump(res, open(lr, "w"), indent=1, sort_keys=True)
+    if not only:
+        json.dump(res, open(lr, "w"), indent=1, sort_keys=True)
     sh(f"git -C /repo worktree remove --force {WT}")
 
 
